@@ -33,6 +33,8 @@ type hookCtl struct {
 	active int32
 }
 
+const hookAlways = 1 << 20 // delay values at or above this mean "always", not "PRNG up to"
+
 var theHooks = &hookCtl{delay: map[string]int{}, hits: map[string]int64{}}
 
 func init() {
@@ -47,7 +49,9 @@ func init() {
 			h.seq = append(h.seq, name)
 		}
 		d := 0
-		if mx := h.delay[name]; mx > 0 && h.r != nil {
+		if mx := h.delay[name]; mx >= hookAlways {
+			d = mx - hookAlways // scripted: always hold this long at this point
+		} else if mx > 0 && h.r != nil {
 			if h.r.Intn(3) == 0 {
 				d = h.r.Intn(mx + 1)
 			}
